@@ -79,6 +79,13 @@ def _safe_validate(vtype, val, name):
         return None
 
 
+def _as_value(err):
+    """An Excel error that is kept as a value must not keep the frames of
+    the evaluation that produced it alive."""
+    err.__traceback__ = err.__context__ = err.__cause__ = None
+    return err
+
+
 def validate_args(func):
 
     @functools.wraps(func)
@@ -93,14 +100,14 @@ def validate_args(func):
                 bound.arguments[pname] = _validate(
                     sig.parameters[pname].annotation, value, pname)
             except xlerrors.ExcelError as err:
-                return err
+                return _as_value(err)
         # 2. Run the function to compute the result.
         try:
             res = func(*bound.args, **bound.kwargs)
         except xlerrors.ExcelError as err:
             # Never crash on Excel errors as we want to store them as the cell
             # value.
-            return err
+            return _as_value(err)
         # 3. Convert the result to an Excel type.
         return _validate(sig.return_annotation, res, 'return')
 
